@@ -3,8 +3,9 @@ CONSTANTS
   NK = 3
   MaxT = 2
   Files <- TombQuick
-  MaxOps = 3
+  MaxOps = 4
   CrashPts <- CrashSome
+  KeepPts <- KeepSome
   KeepHist = TRUE
   Mode = "tomb"
 INVARIANTS EmitMaximal
